@@ -15,7 +15,7 @@ import (
 func c20Validation(c *eng.Ctx) {
 	// ---- Split: five refusals before any randomness / success
 	if f := c.Fn("shamir.Split"); f != nil && len(f.Params) == 3 {
-		s, p, t := regexp.QuoteMeta(f.Params[0].Name()), regexp.QuoteMeta(f.Params[1].Name()), regexp.QuoteMeta(f.Params[2].Name())
+		s, p, t := regexp.QuoteMeta(eng.VarName(f.Params[0])), regexp.QuoteMeta(eng.VarName(f.Params[1])), regexp.QuoteMeta(eng.VarName(f.Params[2]))
 		c.Clause("R2", "C20.2a")
 		sinks := instrsOf(eng.Calls(f, `^shamir\.(makePolynomial|shuffledXCoordinates)$`))
 		sinks = append(sinks, eng.SuccessReturns(f, 1)...)
@@ -40,7 +40,7 @@ func c20Validation(c *eng.Ctx) {
 	// ---- Combine
 	if f := c.Fn("shamir.Combine"); f != nil && len(f.Params) == 1 {
 		parts := f.Params[0]
-		pn := regexp.QuoteMeta(parts.Name())
+		pn := regexp.QuoteMeta(eng.VarName(parts))
 		interp := instrsOf(eng.Calls(f, `^shamir\.interpolatePolynomial$`))
 		if !c.Floor(f, "interpolatePolynomial call", len(interp), 1) {
 			return
@@ -56,7 +56,7 @@ func c20Validation(c *eng.Ctx) {
 			}
 		}
 
-		loops := c20LoopsOver(f, parts.Name(), true)
+		loops := c20LoopsOver(f, eng.VarName(parts), true)
 
 		// equal-length loop: the loop over parts that contains a test len(parts[i]) == len(parts[0])
 		c.Clause("R2", "C20.2c")
@@ -299,7 +299,7 @@ func c20Validation(c *eng.Ctx) {
 
 // c20ZeroPanic: f tests parameter p against 0, the zero arm panics, and every call and return of f lies behind the non-zero arm.
 func c20ZeroPanic(c *eng.Ctx, f *ssa.Function, p *ssa.Parameter, why string) {
-	site := "zero " + p.Name() + " panics before any arithmetic"
+	site := "zero " + eng.VarName(p) + " panics before any arithmetic"
 	var guard *ssa.If
 	for _, b := range f.Blocks {
 		if ifi := eng.IfOf(b); ifi != nil {
@@ -309,12 +309,12 @@ func c20ZeroPanic(c *eng.Ctx, f *ssa.Function, p *ssa.Parameter, why string) {
 		}
 	}
 	if guard == nil {
-		c.Violation(f, site, f.Pos(), "no test "+p.Name()+" == 0 exists: "+why, nil)
+		c.Violation(f, site, f.Pos(), "no test "+eng.VarName(p)+" == 0 exists: "+why, nil)
 		return
 	}
 	zero, nonzero := c20BaseEdge(guard, true), c20BaseEdge(guard, false)
 	if !c20EndsInPanic(zero.To()) {
-		c.Violation(f, site, guard.Cond.Pos(), "the "+p.Name()+" == 0 arm does not panic: "+why, nil)
+		c.Violation(f, site, guard.Cond.Pos(), "the "+eng.VarName(p)+" == 0 arm does not panic: "+why, nil)
 		return
 	}
 	var sinks []ssa.Instruction
@@ -324,5 +324,5 @@ func c20ZeroPanic(c *eng.Ctx, f *ssa.Function, p *ssa.Parameter, why string) {
 	for _, r := range eng.Returns(f) {
 		sinks = append(sinks, r)
 	}
-	c.Cut(f, "arithmetic and return of "+eng.FuncName(f), sinks, eng.Guard{Desc: "[" + p.Name() + " == 0]=false", Edges: []eng.Edge{nonzero}}, nil)
+	c.Cut(f, "arithmetic and return of "+eng.FuncName(f), sinks, eng.Guard{Desc: "[" + eng.VarName(p) + " == 0]=false", Edges: []eng.Edge{nonzero}}, nil)
 }
